@@ -5,6 +5,8 @@ import MidnightZK.Model.C01.GraphDump
 import MidnightZK.Model.C01.ArgsRun
 import MidnightZK.Model.C01.Identities
 import MidnightZK.Model.C01.VanRun
+import MidnightZK.Model.C01.Rotation
+import MidnightZK.Model.C01.GateRowsRun
 /-! Line-protocol handler of property C01. -/
 namespace MidnightZK.C01.Driver
 open MidnightZK MidnightZK.C01 MidnightZK.C01.Parse
@@ -29,6 +31,18 @@ def answer (line : String) : String :=
     match C02.Parse.parseExprList gates ";" with
     | some es => Graph.render (es.map Graph.ofC02)
     | none => "bad-op"
+  | ["lgraph", ins, tabs] =>
+    match C02.Parse.parseExprList ins ";", C02.Parse.parseExprList tabs ";" with
+    | some a, some b => Graph.renderLookup (a.map Graph.ofC02) (b.map Graph.ofC02)
+    | _, _ => "bad-op"
+  | ["tgraph", es] =>
+    match C02.Parse.parseExprList es ";" with
+    | some a => Graph.renderTrash (a.map Graph.ofC02)
+    | none => "bad-op"
+  | ["rotidx", idx, rot, scale, isize] =>
+    match idx.toNat?, rot.toInt?, scale.toInt?, isize.toInt? with
+    | some i, some r, some s, some n => if 0 < n then toString (Rot.getRotationIdx i r s n) else "bad-op"
+    | _, _, _, _ => "bad-op"
   | "prooflen" :: rest =>
     match parseShape? rest, parseCfg? rest with
     | some sh, some cfg => toString (proofLen sh cfg)
@@ -42,7 +56,7 @@ def answer (line : String) : String :=
 
 /-- Stateful handler: an `argtable` line loads the real table of one proof (answer `ok`), the
 argument requests (`permz`, `lookupcomp`, `lookupperm`, `lookupz`, `trashvec`, `permrules`,
-`lookuprules`, `trashrules`) refer to the table loaded last and must carry its `id`; every other
+`lookuprules`, `trashrules`, `gaterows`) refer to the table loaded last and must carry its `id`; every other
 request is stateless. -/
 def step (st : Option Args.ArgCase) (line : String) : Option Args.ArgCase × String :=
   match words line with
@@ -54,6 +68,10 @@ def step (st : Option Args.ArgCase) (line : String) : Option Args.ArgCase × Str
     if ["permz", "lookupcomp", "lookupperm", "lookupz", "trashvec", "permrules", "lookuprules", "trashrules"].contains op then
       match st with
       | some c => (st, Args.answerArg c op rest)
+      | none => (st, "bad-op")
+    else if op = "gaterows" then
+      match st with
+      | some c => if C02.Parse.kv rest "id" = some c.id then (st, Args.runGateRows c rest) else (st, "bad-op")
       | none => (st, "bad-op")
     else if ["hfold", "lirange", "levals", "insteval"].contains op then (st, Van.answerVan op rest)
     else (st, answer line)
